@@ -25,8 +25,12 @@ THEOREMS = [
     "JanetModel.Props.C01.mark_terminates",
     "JanetModel.Props.C01.collect_keeps_reachable",
     "JanetModel.Props.C01.collect_frees_only_unmarked",
+    "JanetModel.Props.C01.collect_frees_unreachable",
     "JanetModel.Props.C01.collect_closed",
     "JanetModel.Props.C01.gc_transparent",
+    "JanetModel.Props.C01.mark_eq_reachable_impl",
+    "JanetModel.Props.C01.markSites_as_modelled",
+    "JanetModel.Props.C01.gen_facts",
 ]
 H = os.path.join(VERIF, "harness/C01")
 SOURCES = [os.path.join(H, x) for x in ("gch.c", "w_ev.c", "w_net.c", "w_os.c", "w_filewatch.c")]
@@ -179,7 +183,10 @@ def _run(ctx, quick, broken, exes, driver, tmp, gen_info, only_replay):
                 for s in beh:
                     jobs.append((g, Job(p, v, s, seed=rng.next() % 10**9)))
     # ---- generated programs
-    n_small, n_large = (70, 50) if quick else (1200, 800)
+    n_small, n_large = (40, 30) if quick else (1200, 800)
+    light = bool(os.environ.get("C01_LIGHT"))   # development aid (mutation runs): catalogue + a few programs only
+    if light:
+        n_small, n_large = 12, 8
     if only_replay:
         n_small = n_large = 0
     kinds = {}
@@ -208,7 +215,7 @@ def _run(ctx, quick, broken, exes, driver, tmp, gen_info, only_replay):
     if quick:
         suites = [s for s in suites if os.path.basename(s) in ("suite-array.janet", "suite-struct.janet", "suite-tuple.janet", "suite-table.janet",
                                                               "suite-symcache.janet", "suite-value.janet", "suite-buffer.janet")]
-    if only_replay:
+    if only_replay or light:
         suites = []
     for p in suites:
         g = "suite:" + os.path.basename(p)
